@@ -37,4 +37,5 @@ def check(ctx, run):
     import boundaries
     _bf = lambda p_: p_.startswith(('jsonpath::parser::', 'util::', 'keypath::'))
     boundaries.check(ctx, run, 'R16.10', [p_ for p_ in sorted(boundaries.load_baseline() or {}) if _bf(p_)], 'the key-path scanner rejects input')
+    parsers.empty_literal(ctx, run, 'R16.9/R09.7')
     return report.finish(run, level='other', explanation=EXPLANATION, assumptions=["nom 7 contracts as for C09", "A3"])
